@@ -175,6 +175,22 @@ func c15Corpus(thorough bool) []*c15Entry {
 		d = append(d, fullBound...)
 		add(fmt.Sprintf("polygon-lossless-14-loops-zero-vertex-loop-at-%d", zeroAt), "Polygon", d, c15Field{"nloops", 3, 4, c15MaxLoops})
 	}
+	// hand-assembled lossless polygons all of whose loops are the special one-vertex loops (what the
+	// uncompressed encoder of other implementations writes for the full polygon): the vertex
+	// accounting of the decoded value differs from every polygon built by a constructor
+	fullL, emptyL := encodeOf(s2.FullLoop().Encode), encodeOf(s2.EmptyLoop().Encode)
+	oneV := encodeOf(s2.LoopFromPoints([]s2.Point{ll(-12, 34)}).Encode)
+	for _, hm := range []struct {
+		name  string
+		loops [][]byte
+	}{{"full-loop", [][]byte{fullL}}, {"full+empty-loops", [][]byte{fullL, emptyL}}, {"one-vertex-loop-off-centre", [][]byte{oneV}}} {
+		d := []byte{1, 1, 0, byte(len(hm.loops)), 0, 0, 0}
+		for _, l := range hm.loops {
+			d = append(d, l...)
+		}
+		d = append(d, fullBound...)
+		add("polygon-lossless-"+hm.name, "Polygon", d, c15Field{"nloops", 3, 4, c15MaxLoops}, c15Field{"loop0.nvertices", 8, 4, c15MaxVertices})
+	}
 	if thorough {
 		polyCompressed("polygon-compressed-level1", s2.PolygonFromLoops([]*s2.Loop{snapLoop(ll(10, 10), 50, 4, 1, 0)}))
 		polyLossless("polygon-lossless-40", s2.PolygonFromLoops([]*s2.Loop{s2.RegularLoop(p, s1.Degree*3, 40)}))
